@@ -1,5 +1,6 @@
 import Babylon.Core.Trace
 import Babylon.Counter.Model
+import Std.Data.HashSet
 /-! History replay driver for property C19 (counters / enumerable thread-locals).
 stdin: runs `RUN <seed> …` / VRT trace lines / `END`; stdout per run: `ok <n>` | `diverge <why>`.
 Only harness events (`<tid> ev …`) are interpreted; each is one event of the history model
@@ -182,12 +183,15 @@ def hi (xs : List (Int × Int)) : Int × Int := xs.foldl (fun a x => (a.1 + max 
 
 /-- sums of `base` + one prefix of every thread's overlapping adds (`over` in chronological order):
 what a read can return when every cell is loaded once and every contribution is stored indivisibly -/
-def reachable (base : Int × Int) (over : List (Nat × (Int × Int))) : List (Int × Int) :=
+def reachable (base : Int × Int) (over : List (Nat × (Int × Int))) : Std.HashSet (Int × Int) :=
   let threads := (over.map (·.1)).eraseDups
-  threads.foldl (fun cur t =>
+  threads.foldl (fun (cur : Std.HashSet (Int × Int)) t =>
     let mine := (over.filter (·.1 == t)).map (·.2)
-    let prefixes := (List.range (mine.length + 1)).map (fun k => (mine.take k).foldl addP (0, 0))
-    (cur.flatMap (fun b => prefixes.map (addP b))).eraseDups) [base]
+    -- running prefix sums of this thread's adds, the empty prefix included
+    let prefixes := mine.foldl (fun (acc : List (Int × Int) × (Int × Int)) x =>
+      let s := addP acc.2 x; (s :: acc.1, s)) ([(0, 0)], (0, 0)) |>.1
+    cur.fold (fun (nxt : Std.HashSet (Int × Int)) b => prefixes.foldl (fun n p => n.insert (addP b p)) nxt) {})
+    (({} : Std.HashSet (Int × Int)).insert base)
 
 def stepEv (w : World) (t : Nat) (ws : List String) : Except String World := do
   match ws with
@@ -278,7 +282,7 @@ def stepEv (w : World) (t : Nat) (ws : List String) : Except String World := do
     | _, a :: _ =>
       if !(l.1 ≤ a ∧ a ≤ u.1) then
         throw s!"concurrent read of {h} returned {a}, outside [{l.1}, {u.1}] (adds completed before the read started … adds started before it ended)"
-      else if !(sets.any (·.1 == a)) then
+      else if !(sets.fold (fun f p => f || p.1 == a) false) then
         throw s!"concurrent read of {h} returned {a}: not the adds completed at the call plus a per-thread prefix of the overlapping ones"
       else pure { w with reading := none, creads := w.creads + 1 }
     | _, _ => throw "bad cread values"
